@@ -86,3 +86,33 @@ func debugAccesses(p *Program, arg string) int {
 	}
 	return 0
 }
+
+// debugDep: arg "func|valueName|field": explains why the value depends on the field.
+func debugDep(p *Program, arg string) int {
+	parts := strings.Split(arg, "|")
+	if len(parts) != 3 {
+		fmt.Println("usage: -prop dep -arg 'func|tNN|pkg.Type.Field'")
+		return 2
+	}
+	for _, fn := range p.allRepoFuncs() {
+		if !strings.HasSuffix(fn.String(), parts[0]) {
+			continue
+		}
+		for _, b := range fn.Blocks {
+			for _, in := range b.Instrs {
+				v, ok := in.(ssa.Value)
+				if !ok || v.Name() != parts[1] {
+					continue
+				}
+				q := newDepQuery(p, onField(parts[2]))
+				q.noParams = os.Getenv("LSVERIF_NOPARAMS") != ""
+				res := q.depends(v, 0)
+				fmt.Println(fn, v.Name(), "=", v, "depends:", res)
+				for _, s := range q.explain(v, 60) {
+					fmt.Println("   <-", s)
+				}
+			}
+		}
+	}
+	return 0
+}
